@@ -893,6 +893,22 @@ def scan_guards(repo, consts, flags):
     # loop steps over it (the repair proposed for F67; false while it is not in the source)
     g['format_backslash_guard'] = bool(re.search(
         r"if \(\*p == '\\\\'\) \{ p\+\+; if \(! \*p\) throw_ ?\(format_error,[^;]*\); current->type = element_t::STRING; switch \(\*p\) \{", fm))
+    # xact.cc finalize, two-commodity block: the loop that counts commodities_left and the loop that
+    # picks x and y test the components with the same predicate, over the same map, and the block
+    # is entered only when the count is 2
+    xc = norm(strip_comments(open(os.path.join(src, 'xact.cc'), errors='replace').read()))
+    g['finalize_pick_uses_count_predicate'] = bool(re.search(
+        r'std::size_t commodities_left = 0; if \(! null_post && balance\.is_balance\(\)\) foreach \(const balance_t::amounts_map::value_type& pair, '
+        r'balance\.as_balance\(\)\.amounts\) if \(! pair\.second\.is_realzero\(\)\) commodities_left\+\+; if \(commodities_left == 2\) \{ (?:DEBUG ?\([^;]*\); )?'
+        r'const balance_t& bal\(balance\.as_balance\(\)\); const amount_t \* x = NULL; const amount_t \* y = NULL; '
+        r'foreach \(const balance_t::amounts_map::value_type& pair, bal\.amounts\) \{ if \(pair\.second\.is_realzero\(\)\) continue; '
+        r'if \(! x\) x = &pair\.second; else y = &pair\.second; \}', xc))
+    # journal.cc add_xact, duplicate UUID: the sizes of the two posting lists are compared before
+    # the three-iterator std::equal is called (the repair proposed for F68; false until then)
+    g['uuid_size_test_first'] = bool(re.search(
+        r'bool match = this_posts\.size\(\) == other_posts\.size\(\) && std::equal\(this_posts\.begin\(\), this_posts\.end\(\), '
+        r'other_posts\.begin\(\), is_equivalent_posting\);', jc)) or bool(re.search(
+        r'std::equal\(this_posts\.begin\(\), this_posts\.end\(\), other_posts\.begin\(\), other_posts\.end\(\), is_equivalent_posting\)', jc))
     # (d) the period parser rejects `every 0 <unit>`
     tc = strip_comments(open(os.path.join(src, 'times.cc'), errors='replace').read())
     m = re.search(r'case\s+lexer_t::token_t::TOK_EVERY\s*:(.*?)case\s+lexer_t::token_t::TOK_YEARS', tc, re.S)
@@ -1005,6 +1021,10 @@ def generate(repo):
           'Definition src_justify_width_limit : option Z := %s.' % opt(g['justify_width_limit']),
           '(* format.cc parse_elements: `if (! *p) throw` after the step over a backslash (proposed for F67) *)',
           'Definition src_format_backslash_guard : bool := %s.' % bl(g['format_backslash_guard']),
+          '(* xact.cc finalize: commodities_left and the choice of x, y use the same test (Model/Selection.v) *)',
+          'Definition src_finalize_pick_uses_count_predicate : bool := %s.' % bl(g['finalize_pick_uses_count_predicate']),
+          '(* journal.cc add_xact: sizes compared before the three-iterator std::equal (proposed for F68) *)',
+          'Definition src_uuid_size_test_first : bool := %s.' % bl(g['uuid_size_test_first']),
           '(* journal.cc expand_aliases: each branch records in already_seen the name it looked up (Model/Aliases.v) *)',
           'Definition src_alias_records_what_it_looks_up : bool := %s.' % bl(g['alias_records_what_it_looks_up']),
           '(* format.cc parse_elements `%$N`: template / index / null tests exactly as modelled in Model/FormatRef.v *)',
